@@ -723,16 +723,12 @@ func TestVerifC15Raw(t *testing.T) {
 			}
 		}
 		// keep widths bounded: the padding loop is linear in the width
-		digits := 0
-		for i, b := range c.Format {
-			if b >= '0' && b <= '9' {
-				digits++
-				if digits > 6 {
-					c.Format[i] = 'z'
-					digits = 0
+		for !c15WidthBounded(c.Format) {
+			for i, b := range c.Format {
+				if b >= '0' && b <= '9' {
+					c.Format[i] = 'z' // drop the first digit and re-check
+					break
 				}
-			} else {
-				digits = 0
 			}
 		}
 		na := rapid.IntRange(0, 5).Draw(t, "nargs")
@@ -757,6 +753,35 @@ func TestVerifC15RawReplay(t *testing.T) {
 	vlib.Report(t, "C15", c, c15RunRaw(c))
 }
 
+// c15WidthBounded reports whether every width the formatter would accumulate
+// for this format stays below 10^6. The formatter keeps accumulating digits
+// after a '%' across unsupported characters until a verb or '%' ends the
+// directive, so digits need not be adjacent. (An enormous width is not a panic,
+// just billions of pad bytes; the never-panics checks stay within bounded widths
+// so that a slow run is never mistaken for a failure.)
+func c15WidthBounded(format []byte) bool {
+	for i := 0; i < len(format); i++ {
+		if format[i] != '%' {
+			continue
+		}
+		acc := 0
+	scan:
+		for i++; i < len(format); i++ {
+			c := format[i]
+			switch {
+			case c >= '0' && c <= '9':
+				acc = acc*10 + int(c-'0')
+				if acc > 1000000 {
+					return false
+				}
+			case c == '%' || c == 'd' || c == 'x' || c == 'o' || c == 's' || c == 't':
+				break scan
+			}
+		}
+	}
+	return true
+}
+
 // FuzzVerifC15 is the coverage-guided variant of the never-panics property
 // (thorough tier). data[0] selects an argument list shape.
 func FuzzVerifC15(f *testing.F) {
@@ -771,16 +796,8 @@ func FuzzVerifC15(f *testing.F) {
 		}
 		sel := int(data[0])
 		format := string(data[1:])
-		digits := 0
-		for _, b := range data[1:] {
-			if b >= '0' && b <= '9' {
-				digits++
-				if digits > 6 {
-					return
-				}
-			} else {
-				digits = 0
-			}
+		if !c15WidthBounded(data[1:]) {
+			return
 		}
 		var args []interface{}
 		for i := 0; i < sel%6; i++ {
